@@ -378,7 +378,7 @@ impl std::ops::Deref for Keyspace { type Target = KeyspaceInner; fn deref(&self)
             final(w).fs_log == old(w).fs_log || final(w).fs_log == old(w).fs_log.push((false, m)) || final(w).fs_log == old(w).fs_log.push((false, m)).push((true, d)) }), // [C12:manifest-removed-before-the-directory]
 //@end
 
-//@extract src/db.rs :: Database :: delete_keyspace world props=C12
+//@extract src/db.rs :: Database :: delete_keyspace world props=C12+C10+C02
 //@contract
     ensures
         // the handle's keyspace is the one registered under its name: afterwards the name no longer exists
@@ -387,7 +387,7 @@ impl std::ops::Deref for Keyspace { type Target = KeyspaceInner; fn deref(&self)
         // a STALE handle (its keyspace was deleted before; the name may have been created again since) deletes nothing:
         // operations on one keyspace never change another, in particular not the keyspace that took over the name
         !is_registered(*old(w), handle.0.t.name.s@, handle.0.t.id) ==> final(w).names == old(w).names && final(w).registered == old(w).registered && final(w).meta_removed == old(w).meta_removed, // [C12:delete-through-a-stale-handle-leaves-the-keyspace-that-took-over-the-name]
-        r is Err ==> *final(w) == *old(w), // [C12:failed-delete-changes-nothing]
+        r is Err ==> *final(w) == *old(w), // [C12:failed-delete-changes-nothing] [C10:failed-delete-changes-nothing] [C02:failed-delete-changes-nothing] (a keyspace flagged deleted no longer holds journals back: U-JMGR)
 //@end
 
 //@extract src/db.rs :: Database :: keyspace world optmap props=C12+C16+C18+C13+C17
